@@ -1,5 +1,5 @@
 CONSTANTS
-  Configs <- ConfigsC
+  Configs <- ConfigsCt
   InitEntries <- InitC
   NextCalls <- NextC
   MaxCalls = 3
